@@ -505,6 +505,11 @@ class CompGen:
         rr = c.random()
         if srcs and rr < 0.7:
           a = c.choice(srcs)
+          # fan-out bias: reuse the previous connect source so that nets get several members
+          prev = getattr(self, "last_src", None)
+          if prev is not None and c.random() < 0.4 and any(x is prev for x in srcs):
+            a = prev
+          self.last_src = a
           self.items.append({"k": "connect", "a": pc["path"], "b": a.path, "flip": c.random() < 0.5,
                              "op": self.conn_op(pc)})
           made = True
